@@ -41,5 +41,6 @@ pub const ASSUMPTIONS: &[&str] = &[
     "default depots are named depot_<location> and are unlimited",
     "a vehicle's maintenance counter = service + dead-head distance of its tour minus one maximalDistance iff it visits >= 1 slot; without a maintenance parameter the allowance is 0",
     "dead-head matrices have a zero diagonal (generator domain)",
+    "dead-head durations longer than the planning horizon count as one horizon, dead-head distances above 1000 km as 1000 km (the loader's announced clamps)",
     "reference model (refmodel crate), serde_json, Rust toolchain are trusted",
 ];
